@@ -2390,6 +2390,38 @@ func (e *wireExec) matchHostile(s *XStep) {
 	guardT(o, "Policy.PartialMatch", len(raw), false, func() { pol.PartialMatch(node) })
 	o.Eval("C09")
 	o.Sig("C09", "match", s.Val%len(vals), len(pol))
+	// purpose-built pairs: an == statement whose literal has the SAME SHAPE as the hostile data down
+	// to the hostile item (a scalar sibling before it in a map, an element before it in a list),
+	// hostile item in the data with a benign policy, and in the policy with benign data
+	shape := func(leaf *CB) *CB {
+		return cbMap(cbText("m"), cbMap(cbText("aa"), cbText("t"), cbText("zz"), leaf.Clone()),
+			cbText("l"), cbArray(cbText("t"), leaf.Clone()),
+			cbText("d"), cbMap(cbText("k"), cbMap(cbText("name"), cbText("report"), cbText("size"), leaf.Clone())))
+	}
+	hostile, benign := shape(v), shape(cbInt(1024))
+	polFor := func(lit *CB) *CB {
+		return cbArray(
+			cbArray(cbText("=="), cbText(".m"), lit.MapGet("m").Clone()),
+			cbArray(cbText("=="), cbText(".l"), lit.MapGet("l").Clone()),
+			cbArray(cbText("=="), cbText(".d.k"), lit.MapGet("d").MapGet("k").Clone()),
+			cbArray(cbText("any"), cbText(".l"), cbArray(cbText("=="), cbText("."), lit.MapGet("m").Clone())),
+			cbArray(cbText("=="), cbText("."), lit.Clone()))
+	}
+	for _, pair := range [][2]*CB{{polFor(benign), hostile}, {polFor(hostile), benign}, {polFor(hostile), hostile}} {
+		pb, db := pair[0].Encode(), pair[1].Encode()
+		guardT(o, "policy.FromIPLD + Match (shaped literal)", len(pb)+len(db), true, func() {
+			pn, err1 := ipld.Decode(pb, dagcbor.Decode)
+			dn, err2 := ipld.Decode(db, dagcbor.Decode)
+			if err1 != nil || err2 != nil {
+				return
+			}
+			if p2, err := policy.FromIPLD(pn); err == nil {
+				p2.Match(dn)
+				p2.PartialMatch(dn)
+			}
+		})
+		o.Eval("C09")
+	}
 	// the same data offered as arguments / metadata values through the public constructors
 	guardT(o, "args.Add(node)", len(raw), false, func() { _ = args.New().Add("x", node) })
 	guardT(o, "meta.Add(node)", len(raw), false, func() { _ = meta.NewMeta().Add("x", node) })
